@@ -28,8 +28,10 @@ import (
 	"fmt"
 	"math"
 	"math/rand"
+	"os"
 	"sort"
 	"strings"
+	"time"
 	"unicode"
 
 	"github.com/sharedcode/sop"
@@ -253,6 +255,38 @@ func genCase(rnd *rand.Rand, kind string) kase {
 			continue
 		}
 		k.Queries = append(k.Queries, q)
+	}
+	return k
+}
+
+// genWide: many rare terms (about two postings per term, ~20000 postings). The postings tree has
+// several leaves and, with about every second posting being the first of its term, some term's
+// postings begin exactly at a node boundary - the case in which Search has to step from the
+// "nearest" item to the first posting. Every term is queried once.
+func genWide(rnd *rand.Rand) kase {
+	k := kase{Kind: "wide", NTx: 1 + rnd.Intn(3)}
+	const nDocs, perDoc, vocabN = 500, 40, 10000
+	used := map[string]bool{}
+	for i := 0; i < nDocs; i++ {
+		ws := make([]string, perDoc)
+		for j := range ws {
+			ws[j] = fmt.Sprintf("t%04d", rnd.Intn(vocabN))
+			used[ws[j]] = true
+		}
+		tx := rnd.Intn(k.NTx)
+		if i < k.NTx {
+			tx = i
+		}
+		k.Docs = append(k.Docs, doc{ID: fmt.Sprintf("d%03d", i), Text: strings.Join(ws, " "), Tx: tx})
+	}
+	terms := make([]string, 0, len(used))
+	for t := range used {
+		terms = append(terms, t)
+	}
+	sort.Strings(terms)
+	k.Queries = terms
+	for i := 0; i+2 < len(terms); i += 97 { // some multi-term queries over neighbouring terms
+		k.Queries = append(k.Queries, terms[i]+" "+terms[i+1]+" "+terms[i+2])
 	}
 	return k
 }
@@ -566,16 +600,23 @@ func Run(r *report.Run) int {
 	}
 
 	var cases []kase
-	nSmall, nLarge := r.Pick(70, 900), r.Pick(1, 8)
+	nSmall, nLarge, nWide := r.Pick(60, 700), r.Pick(1, 8), r.Pick(2, 10)
 	for i := 0; i < nSmall; i++ {
 		cases = append(cases, genCase(rnd, "small"))
 	}
 	for i := 0; i < nLarge; i++ {
 		cases = append(cases, genCase(rnd, "large"))
 	}
+	for i := 0; i < nWide; i++ {
+		cases = append(cases, genWide(rnd))
+	}
 	var diffs []map[string]any
 	for i, k := range cases {
+		t0 := time.Now()
 		nt := x.runCase(i, k, &diffs)
+		if os.Getenv("C32_DEBUG") != "" {
+			fmt.Printf("DEBUG case %d kind=%s docs=%d queries=%d took %v\n", i, k.Kind, len(k.Docs), len(k.Queries), time.Since(t0))
+		}
 		r.Eval(k.fingerprint(), nt)
 		r.Count("cases:"+k.Kind, 1)
 		r.Count(fmt.Sprintf("cases_with_%d_index_transactions", k.NTx), 1)
@@ -591,7 +632,7 @@ func Run(r *report.Run) int {
 	return r.Finish(rule, assumptions, 20)
 }
 
-const rule = "corpora of 1-24 documents (0-30 words) over vocabularies of 4-17 words drawn from ASCII (mixed case, digits, prefixes of each other), stop words, unicode words (accents, CJK, Greek, Cyrillic, non-ASCII digits/number letters) and - in a quarter of the corpora - words with combining marks/format/control characters, joined by 32 separators; document ids in 9 forms incl. '|', '~', blanks, unicode; documents split over 1-4 committed transactions; plus large corpora (260-320 documents, > 5000 postings); 8-12 queries per corpus (1 term, 2-4 terms, absent term, stop words only, other case) without repeated terms; fingerprint = hash of (documents, split, queries); non-trivial = >= 2 documents and some query with >= 2 terms matched >= 2 documents with >= 2 different reference scores"
+const rule = "corpora of 1-24 documents (0-30 words) over vocabularies of 4-17 words drawn from ASCII (mixed case, digits, prefixes of each other), stop words, unicode words (accents, CJK, Greek, Cyrillic, non-ASCII digits/number letters) and - in a quarter of the corpora - words with combining marks/format/control characters, joined by 32 separators; document ids in 9 forms incl. '|', '~', blanks, unicode; documents split over 1-4 committed transactions; plus large corpora (260-320 documents, > 5000 postings) and wide corpora (500 documents x 40 terms out of 10000, ~20000 postings, every term queried once); 8-12 queries per corpus (1 term, 2-4 terms, absent term, stop words only, other case) without repeated terms; fingerprint = hash of (documents, split, queries); non-trivial = >= 2 documents and some query with >= 2 terms matched >= 2 documents with >= 2 different reference scores"
 
 var assumptions = []string{
 	"standalone database (one folder, in-memory L2); every transaction opens the index with search.NewIndex; searches run in a new ForReading transaction after all index transactions committed",
